@@ -8,6 +8,7 @@ import (
 	"errors"
 	"fmt"
 	"io"
+	"os"
 	"sort"
 	"strings"
 	"sync"
@@ -84,6 +85,12 @@ func NewNet(s *dsim.Sim) *Net {
 	lg := logrus.New()
 	lg.SetOutput(io.Discard)
 	lg.SetLevel(logrus.PanicLevel)
+	if os.Getenv("DSIM_SYSLOG") != "" {
+		// development aid: the system's own log lines go to the event log
+		lg.SetLevel(logrus.DebugLevel)
+		lg.SetOutput(sysLogWriter{s})
+		lg.SetFormatter(&logrus.TextFormatter{DisableTimestamp: true, DisableColors: true})
+	}
 	le := logrus.NewEntry(lg)
 	ctx, cancel := context.WithCancel(context.Background())
 	n := &Net{S: s, Log: le, cnt: map[string]int{}, ctx: ctx, cancel: cancel, Names: map[string]string{}}
@@ -95,6 +102,13 @@ func NewNet(s *dsim.Sim) *Net {
 	}
 	n.Server = n.newServer()
 	return n
+}
+
+type sysLogWriter struct{ s *dsim.Sim }
+
+func (w sysLogWriter) Write(b []byte) (int, error) {
+	w.s.Logf("SYS %s", strings.TrimSpace(string(b)))
+	return len(b), nil
 }
 
 func (n *Net) newServer() *signaling_server.Server {
@@ -498,6 +512,9 @@ func (c *cliEnd) Close() error {
 	if !already {
 		_ = st.C2S.Send(dsim.Item{Ctl: "eof"})
 		st.cliCan()
+		// a closed stream delivers nothing more to its (former) reader: what the relay sent
+		// and what arrives later is discarded, as a stream multiplexer does
+		st.S2C.Reset(context.Canceled)
 		st.N.S.Logf("cli-close %s", st.Name)
 	}
 	return nil
